@@ -103,8 +103,10 @@ def build_facts(scope="lib", repo=REPO, use_cache=True):
         froot = os.path.join(BUILD, "facts")
         os.makedirs(froot, exist_ok=True)
         olds = sorted((os.path.getmtime(os.path.join(froot, d)), d) for d in os.listdir(froot))
-        for _, d in olds[:-5] if len(olds) > 5 else []:
-            shutil.rmtree(os.path.join(froot, d), ignore_errors=True)
+        now = time.time()
+        for mt, d in olds[:-12] if len(olds) > 12 else []:
+            if now - mt > 1800:
+                shutil.rmtree(os.path.join(froot, d), ignore_errors=True)
         os.makedirs(fdir)
         target = os.path.join(BUILD, "target-" + scope)
         # cargo's freshness cache would skip the wrapper for unchanged crates: drop the workspace
@@ -241,8 +243,16 @@ class Facts:
 
 
 def load(scope="lib", repo=REPO):
-    fdir, info = build_facts(scope, repo)
-    return Facts(fdir, info)
+    # a concurrent run may prune the fact cache between building and loading: retry with a fresh build
+    last = None
+    for _ in range(3):
+        fdir, info = build_facts(scope, repo)
+        try:
+            return Facts(fdir, info)
+        except (FileNotFoundError, json.JSONDecodeError) as e:
+            last = e
+            shutil.rmtree(fdir, ignore_errors=True)
+    raise EngineError("fact files disappeared while loading (%s)" % last)
 
 
 def load_fixtures():
